@@ -3,6 +3,7 @@ package vsearchworld
 import (
 	"fmt"
 	"mime"
+	"sort"
 	"strings"
 	"time"
 
@@ -150,6 +151,15 @@ func Gen(t *rapid.T, cfg Config) *World {
 		}
 		w.AddDir(rapid.SampledFrom(DirNames).Draw(t, "dirName"), children)
 	}
+	// now and then a world with several hundred further (non-schema) blobs: enumerations that poll,
+	// batch or page every N candidates only show their seams on worlds larger than N
+	if rapid.IntRange(0, 24).Draw(t, "largeWorld") == 0 {
+		n := rapid.IntRange(260, 700).Draw(t, "fillerBlobs")
+		salt := rapid.IntRange(0, 1<<20).Draw(t, "fillerSalt")
+		for i := 0; i < n; i++ {
+			w.AddRaw(fmt.Sprintf("filler blob %d of %d (salt %d) %s", i, n, salt, strings.Repeat("x", i%17)))
+		}
+	}
 	// permanodes
 	np := rapid.IntRange(1, cfg.MaxPerms).Draw(t, "nPerms")
 	for i := 0; i < np; i++ {
@@ -158,11 +168,51 @@ func Gen(t *rapid.T, cfg Config) *World {
 	for _, p := range w.Perms {
 		GenClaims(t, w, p, cfg.MaxClaimsPerPerm)
 	}
+	// Targeted shape "set of tagged members": a set whose first member carries several values of an
+	// attribute and whose later member carries another value; a valueInSet sub-query about that attribute
+	// is then evaluated member by member in the middle of the loop over the set's values.
+	if rapid.IntRange(0, 4).Draw(t, "taggedMembers") == 0 {
+		set, a, b := w.AddPermanode("tm-set"), w.AddPermanode("tm-a"), w.AddPermanode("tm-b")
+		tags := rapid.Permutation(Tags).Draw(t, "tmTags")
+		w.AddClaim(a, DatePool[0], "add-attribute", "tag", tags[0])
+		w.AddClaim(a, DatePool[1], "add-attribute", "tag", tags[1%len(tags)])
+		if len(tags) > 2 {
+			w.AddClaim(b, DatePool[2], "add-attribute", "tag", tags[2])
+		} else {
+			w.AddClaim(b, DatePool[2], "set-attribute", "title", Titles[0])
+		}
+		w.AddClaim(set, DatePool[3], "add-attribute", "camliMember", a.RefS)
+		w.AddClaim(set, DatePool[4], "add-attribute", "camliMember", b.RefS)
+	}
 	// upload order of the claims: date order per permanode, or shuffled
 	if rapid.IntRange(0, 2).Draw(t, "shuffleClaims") == 0 {
 		ShuffleClaims(t, w)
 	}
+	// arrival order must not matter to search results: in a third of the worlds the files, chunks and
+	// directories arrive AFTER the permanodes and claims that reference them (out-of-order indexing), and
+	// the corpus orderings are read while the world is being built (see Build), so that an ordering or
+	// candidate cache that is not refreshed by a late dependency shows up as a wrong search result.
+	if rapid.IntRange(0, 2).Draw(t, "lateContent") == 0 {
+		LateContent(w)
+		w.WarmDuringBuild = true
+	}
 	return w
+}
+
+// LateContent moves every blob that is neither a public key, a permanode nor a claim behind the claims.
+func LateContent(w *World) {
+	var head, tail []string
+	for _, rs := range w.Order {
+		b := w.Blobs[rs]
+		if b.Claim != nil || b.Type == "permanode" || b.Type == "" && len(head) == 0 {
+			head = append(head, rs)
+		} else if b.Type == "file" || b.Type == "directory" || b.Type == "static-set" || b.Type == "bytes" || b.Type == "" {
+			tail = append(tail, rs)
+		} else {
+			head = append(head, rs)
+		}
+	}
+	w.SetOrder(append(head, tail...))
 }
 
 // GenFile adds one file.
@@ -239,7 +289,36 @@ func GenClaims(t *rapid.T, w *World, p *Perm, max int) {
 	}
 	sortTimes(dates)
 	state := map[string][]string{}
-	timeSource := "" // "dateCreated" or "camliContent"
+	edgeSeen := map[string][]string{} // edge attribute -> every target it ever had (also overwritten/removed ones)
+	timeSource := ""                  // "dateCreated" or "camliContent"
+	// Targeted shape "moved edge": the last three claims make a node reachable through an edge attribute
+	// that was since overwritten (stale claim) and, later, through a different edge attribute (valid
+	// claim). A relation constraint without edgeType has to look past the stale claim.
+	var script []time.Time
+	if len(dates) >= 4 && rapid.IntRange(0, 3).Draw(t, "movedEdge") == 0 {
+		script = dates[len(dates)-3:]
+		dates = dates[:len(dates)-3]
+	}
+	defer func() {
+		if script == nil {
+			return
+		}
+		c, d2 := anyRef(t, w, p), anyRef(t, w, p)
+		if c == d2 {
+			return
+		}
+		second := "camliMember"
+		if has(state["camliMember"], c) {
+			second = "camliPath:y"
+		}
+		w.AddClaim(p, script[0], "set-attribute", "camliPath:x", c)
+		w.AddClaim(p, script[1], "set-attribute", "camliPath:x", d2)
+		if second == "camliMember" {
+			w.AddClaim(p, script[2], "add-attribute", second, c)
+		} else {
+			w.AddClaim(p, script[2], "set-attribute", second, c)
+		}
+	}()
 	for _, d := range dates {
 		var kind, attr, val string
 		for tries := 0; ; tries++ {
@@ -276,6 +355,9 @@ func GenClaims(t *rapid.T, w *World, p *Perm, max int) {
 				}
 			case 6, 7: // member edge
 				attr, val = "camliMember", anyRef(t, w, p)
+				if tg := otherEdgeTargets(state, edgeSeen, attr); len(tg) > 0 && rapid.Bool().Draw(t, "memberReusesPathTarget") {
+					val = rapid.SampledFrom(tg).Draw(t, "reusedTarget") // the same node reached through a second edge attribute
+				}
 				kind = "add-attribute"
 				if len(state[attr]) > 0 && rapid.IntRange(0, 2).Draw(t, "dropMember") == 0 {
 					val = rapid.SampledFrom(state[attr]).Draw(t, "memberToDrop") // an edge that existed once
@@ -286,6 +368,9 @@ func GenClaims(t *rapid.T, w *World, p *Perm, max int) {
 			case 8: // path edge
 				kind, attr = "set-attribute", rapid.SampledFrom(PathAttrs).Draw(t, "pathAttr")
 				val = anyRef(t, w, p)
+				if tg := otherEdgeTargets(state, edgeSeen, attr); len(tg) > 0 && rapid.Bool().Draw(t, "pathReusesEdgeTarget") {
+					val = rapid.SampledFrom(tg).Draw(t, "reusedTarget") // the same node reached through a second edge attribute
+				}
 			case 9: // content
 				if timeSource == "dateCreated" {
 					continue
@@ -333,8 +418,34 @@ func GenClaims(t *rapid.T, w *World, p *Perm, max int) {
 			timeSource = attr
 		}
 		w.AddClaim(p, d, kind, attr, val)
+		if (attr == "camliMember" || strings.HasPrefix(attr, "camliPath:")) && kind != "del-attribute" && val != "" {
+			edgeSeen[attr] = append(edgeSeen[attr], val)
+		}
 		state = p.AttrsAt(time.Time{})
 	}
+}
+
+// otherEdgeTargets lists the targets this permanode ever had under an edge attribute other than attr
+// (current or since overwritten/removed): drawing one of them makes a node reachable through two edge
+// attributes, one of which may be stale.
+func otherEdgeTargets(state, seen map[string][]string, attr string) []string {
+	var out []string
+	var attrs []string
+	for a := range seen {
+		attrs = append(attrs, a)
+	}
+	sort.Strings(attrs)
+	for _, a := range attrs {
+		if a == attr {
+			continue
+		}
+		for _, v := range seen[a] {
+			if !has(out, v) {
+				out = append(out, v)
+			}
+		}
+	}
+	return out
 }
 
 // ShuffleClaims permutes the upload order of the claim blobs (all other blobs keep their place before them).
